@@ -53,6 +53,9 @@ func checkC18(c *Ctx) {
 	c.Rule("C18-R15", "injected events come out in the order injected: every send on the simulation's queue waits for room itself (blocking select with shutdown alternatives only); none is tried without blocking or handed to a goroutine (= C05-R1)")
 	c.Expect("C18-R15", 1)
 	c.asRule("C05-R1", "C18-R15", func() { c05Sends(c, p) })
+	c.Rule("C18-R16", "SetSize produces a resize event with the new size, also when one dimension stays: a way through the simulation's resize that does not resize the buffer knows both dimensions unchanged")
+	c.Expect("C18-R16", 1)
+	checkResizeSkippedOnlyWhenBothEqual(c, p, "C18-R16", "simscreen")
 	c.Rule("C18-R8", "the simulation's ShowCursor remembers the requested position as given")
 	c.Expect("C18-R8", 1)
 	checkShowCursorStoresRequest(c, p, "C18-R8", "simscreen")
